@@ -159,6 +159,18 @@ func c04Session(c *fw.Ctx, r *rand.Rand, idx int) {
 		cur := ref.NewGameFrom(start, moves).Cur
 		s.send(positionCmd(start, moves, true))
 		c.Count("pos_"+tag, 1)
+		if r.Intn(8) == 0 && len(cur.LegalMoves()) > 0 {
+			// the same position as a bare FEN, then the same FEN with some men recoloured: the second line
+			// differs from the first only in the case of letters, yet it is another position
+			base := cur
+			if flipped, ok := flipSomeColours(r, base); ok && len(flipped.LegalMoves()) > 0 {
+				s.send(positionCmd(base, nil, false))
+				start, moves, tag = flipped, nil, "recoloured-fen"
+				cur = flipped
+				s.send(positionCmd(flipped, nil, false))
+				c.Count("pos_"+tag, 1)
+			}
+		}
 
 		reps := 1
 		if r.Intn(6) == 0 {
